@@ -763,6 +763,14 @@ unsafe impl Allocator for PageAlignedAllocator {
     unsafe fn deallocate(&self, ptr: ptr::NonNull<u8>, layout: Layout) {
         let pagesize = *PAGESIZE;
 
+        // wipe the whole allocation (not just the initialized length) before it
+        // goes back to the system allocator
+        let data_region = std::slice::from_raw_parts_mut(ptr.as_ptr(), layout.size());
+        dryoc_mprotect_readwrite(data_region)
+            .map_err(|err| eprintln!("mprotect error = {:?}", err))
+            .ok();
+        data_region.zeroize();
+
         let ptr = ptr.as_ptr().offset(-(pagesize as isize));
 
         // unlock the fore protected region
